@@ -288,7 +288,10 @@ CLAIMS = {
              "Proof, for the float(str/bytes/bytearray) fast path, that __Pyx__PyBytes_AsDouble_IsSpace is Py_ISSPACE on ASCII and that "
              "__Pyx__PyBytes_AsDouble_Copy (loop invariant over a ghost count of non-underscore characters, termination) either refuses "
              "(NULL: CPython's own parser decides) or has removed only underscores PEP 515 allows - none first or last, none directly "
-             "after `_ . e E + -`, none directly before `_ . e E` - leaving the text without them plus NUL inside the caller's buffer. "
+             "after `_ . e E + -`, none directly before `_ . e E` - leaving the text without them plus NUL inside the caller's buffer; "
+             "the same for the str variant __Pyx__PyUnicode_AsDouble_Copy (per PyUnicode kind; every copied character ASCII; all writes inside "
+             "the end - start + 1 bytes the caller provides - the obligation that exposed a one-byte stack/heap overflow, repaired) and "
+             "__Pyx__PyUnicode_AsDouble_IsSpace (on ASCII exactly what the bytes parser strips). "
              "Kernel: float modulo, float floor division, float-constant binops and these two parsing helpers.",
         note="Trusted: dv C front end, z3's FP theory, the C11 contract of fmod/copysign, the float_rem transcription (validated "
              "against float.__mod__ each run); for PyFloatBinop the IEEE operations and the int -> double conversion are uninterpreted "
